@@ -1,6 +1,7 @@
 import Mdns.Driver.C16
 import Mdns.Driver.Wire
 import Mdns.Driver.Sim
+import Mdns.Driver.C11
 /-
   Line-protocol driver (`lean_exe mdnsmodel`).
   stdin: op lines, each followed by the implementation's observation line `= ...`.
@@ -15,12 +16,14 @@ def dispatchExec (op : String) (ts impl : List String) : Option String :=
   if op.startsWith "txt-" then Driver.C16.exec op ts impl
   else if op == "decode" then Driver.Wire.exec op ts
   else if op == "sim" then Driver.Sim.exec ts impl
+  else if Driver.C11.isOp op then Driver.C11.exec op ts
   else none
 
 def dispatchMon (op : String) (ts impl : List String) : Option String :=
   if op.startsWith "txt-" then Driver.C16.monitor op ts impl
   else if op == "decode" then Driver.Wire.monitor op ts impl
   else if op == "sim" then Driver.Sim.monitorOp ts impl
+  else if Driver.C11.isOp op then Driver.C11.monitor op ts impl
   else some "unknown-op"
 
 partial def loop (h : IO.FS.Stream) (out : IO.FS.Stream) (cur : Option (List String)) : IO Unit := do
